@@ -4,15 +4,16 @@
 # (VERIF_REPO isolation: builds under build/alt-<hash>), prints each verdict, removes the worktree and the alt build.
 set -u
 PATCH=$(realpath "$1"); shift
+V=$(dirname "$(dirname "$(realpath "$0")")")   # the /verif tree this script lives in (a snapshot works too)
 WT=$(mktemp -d /tmp/wt-seed-XXXXXX)
 rmdir "$WT"
 git -C /repo worktree add -q "$WT" HEAD || exit 2
 cd "$WT" && git apply "$PATCH" || { echo "patch does not apply"; git -C /repo worktree remove --force "$WT"; exit 2; }
-cd /verif
+cd "$V"
 for id in "$@"; do
   out=$(VERIF_REPO="$WT" ./check "$id" 2>&1); rc=$?
   echo "$out" | grep -E "VIOLATION|KNOWN-FINDING|ERROR|done:" | sed "s/^/[$id rc=$rc] /"; echo "$out" | grep -qE "done:|VIOLATION" || echo "$out" | tail -15
 done
 H=$(python3 -c "import hashlib,os,sys;print(hashlib.sha1(os.path.realpath(sys.argv[1]).encode()).hexdigest()[:8])" "$WT")
 git -C /repo worktree remove --force "$WT"
-rm -rf "/verif/build/alt-$H"
+rm -rf "$V/build/alt-$H"
